@@ -43,6 +43,13 @@ var blockJobs = []blockJob{
 	{"send_in_xpcall", `local ch = channel.make() while true do xpcall(function() ch:send(1) emit("after") end, function(e) emit("h") return e end) emit("r") end`},
 	{"receive_in_coroutine", `local ch = channel.make() local co = coroutine.create(function() ch:receive() emit("after") end) while true do emit(coroutine.resume(co)) end`},
 	{"send_in_wrap_in_pcall", `local ch = channel.make() while true do local ok = pcall(coroutine.wrap(function() ch:send(1) emit("after") end)) emit(ok) end`},
+	// tail position: the Go function's return leaves the dispatch loop without another poll
+	// (fixed 9a7a14e: these ended with a nil error and the results false, nil)
+	{"return_receive", `local ch = channel.make() emit(1) return ch:receive()`},
+	{"return_send", `local ch = channel.make() emit(1) return ch:send(1)`},
+	{"return_select", `local ch = channel.make() emit(1) return channel.select({"|<-", ch}, {"<-|", ch, 1})`},
+	{"return_receive_nested_tail_calls", `local ch = channel.make() local function f() return ch:receive() end local function g() return f() end return g()`},
+	{"return_receive_in_coroutine_tail", `local ch = channel.make() local co = coroutine.wrap(function() return ch:receive() end) return co()`},
 	{"receive_in_sort_comparator", `local ch = channel.make() table.sort({2, 1, 3}, function(a, b) ch:receive() emit("after") return a < b end)`},
 }
 
